@@ -4,7 +4,7 @@ from ..core import Case, TU, chunk, Cfg, std_configs
 
 ID = 'C16'
 TYPES = [('float', 'f32'), ('double', 'f64'), ('int', 'i32'), ('long', 'i64')]
-RULE = ('cases: (a) sum/product/min/max/norm/inner on tensors, on lazy expressions (x*1, -(-x): element-preserving) and as member functions, for rank-1 sizes 1..35 (every residue of every '
+RULE = ('cases: (a) sum/product/min/max/norm/inner on tensors, on lazy expressions (x*1, -(-x): element-preserving) and as member functions, for rank-1 sizes 1..35 plus sizes 63..273 that take every rung of the unrolled 8V/4V/2V/V reduction ladders on every ABI (every residue of every '
         'vector width; rotating sample in the quick tier) and rank-2/3 shapes, under six sign patterns (all positive, all negative, mixed, ONE extreme element at EVERY position (runtime loop, both '
         'signs), all equal, containing +-0) in an exact small-integer regime and a generic-real regime; min/max must equal the model and be an element of the input; sums within n*u*sum|x|; '
         '(b) all_of/any_of/none_of over EVERY boolean pattern for n<=12 on Tensor<bool> and on boolean expressions, incl. none_of == !any_of; random patterns for larger n; (c) isequal / '
@@ -24,6 +24,9 @@ def generate(seed, tier):
     sizes = list(range(1, 36))
     for tn, tk in TYPES:
         ss = sizes if not quick else sorted(set([1, 2, 3] + rnd.sample(sizes, 9)))
+        # unrolled reduction loops (norm: 8V/4V/2V/V ladder, inner: 4V/2V/V) need sizes beyond 8 vectors of the widest ABI (16 floats): every rung taken, with remainders
+        big = [63, 64, 65, 66, 72, 95, 96, 97, 112, 127, 128, 129, 130, 136, 143, 144, 145, 160, 176, 192, 200, 255, 256, 257, 273]
+        ss = ss + (big if not quick else sorted(set(rnd.sample(big, 3) + [rnd.choice([128, 129, 136, 144, 145, 160, 176, 200])])))
         for n in ss:
             add('C16|red|%s|%d' % (tk, n), 'static void @FN@(vp::Ctx& c) { vp::c16::RED<%s,%d>::run(c); }\nVP_CASE("@KEY@", @FN@);' % (tn, n))
         for shp in ([(3, 5), (2, 3, 4)] if quick else [(3, 5), (2, 3, 4), (4, 4), (7, 9), (2, 2, 2, 3)]):
